@@ -32,7 +32,7 @@ def run_family(gpkg, fam, seed, n):
     env["OPENBLAS_CORETYPE"] = "Prescott"
     # families whose code under test contains no external kernel (index arithmetic, sparse products) get no slack retry: one element past
     # the end is already a violation there
-    env["VERIF_EXACT_GUARD"] = "1" if fam in ("index", "gemvbox", "base-large", "baseprod") else "0"
+    env["VERIF_EXACT_GUARD"] = "1" if fam in ("index", "gemvbox", "base-large", "baseprod", "allocfail") else "0"
     outf = os.path.join(tlc.workdir("c19"), "%s_%d.json" % (fam, seed))
     if os.path.exists(outf):
         os.unlink(outf)
@@ -58,8 +58,8 @@ def run(tier, seed, replay=None):
     ck = Check("C19", tier, seed)
     ck.clean_replays()
     quick = tier == "quick"
-    scale = 1 if quick else 25
-    plan = {"blas": 40 * scale, "blas-large": 450 * scale, "index": 400 * scale, "gemvbox": 120 * scale, "baseprod": 200 * scale, "lapack-shapes": 80 * scale, "lapack": 5 * scale, "lapack-large": 50 * scale, "base-large": 50 * scale,
+    scale = 1 if quick else 12
+    plan = {"blas": 40 * scale, "blas-large": 450 * scale, "index": 400 * scale, "gemvbox": 120 * scale, "baseprod": 200 * scale, "allocfail": 10 * scale, "lapack-shapes": 80 * scale, "lapack": 5 * scale, "lapack-large": 50 * scale, "base-large": 50 * scale,
             "dense": 12 * scale, "sparse": 6 * scale, "import": 10 * scale, "shapes": 60 * scale, "misc": 24 * scale}
     ck.rule = ("guard build; per worker x 16: " + ", ".join("%s %d" % kv for kv in plan.items()) + " generated calls / programs; BLAS calls judged by TLC "
                "(accept/reject = footprint, arguments near 2^31 clamped in the model); distinct = distinct (family, routine / operation, outcome) classes")
@@ -87,6 +87,21 @@ def run(tier, seed, replay=None):
         for c, r in zip(d["cases"], d["results"]):
             ck.evaluations += 1
             stats[fam] = stats.get(fam, 0) + 1
+            if fam == "allocfail":
+                # EXPLORATION BEYOND THE PROPERTY (C19 quantifies over argument values, not over the success of malloc): the k-th allocation of
+                # the rebuilt modules is made to fail, k = 1, 2, ...  Outcomes are recorded in the evidence, not reported as violations: the
+                # sparse kernels are known not to check every allocation (DESIGN.md II.5).
+                af = ck.extra.setdefault("allocation_failure_enumeration", {"cases": 0, "injected_failures": 0, "interpreter_died": {}, "invalid_matrix_after_failure": 0,
+                                                                          "note": "not part of the verdict: outside the quantifier of C19"})
+                af["cases"] += 1
+                what = c[0] + (":" + c[1]["f"] if c[0] == "sp" else "")
+                if "crash" in r:
+                    af["interpreter_died"][what] = af["interpreter_died"].get(what, 0) + 1
+                else:
+                    af["injected_failures"] += r.get("kmax", 0)
+                    af["invalid_matrix_after_failure"] += len(r.get("bad", []))
+                ck.nontrivial("allocfail|%s|%s" % (what, "died" if "crash" in r else "survived"))
+                continue
             if "crash" in r and fam == "misc" and not c["valid"]:
                 # cvxopt.misc_solvers validates nothing (see known_findings.json): one signature per function
                 ck.violation("memory|misc_solvers|%s|unchecked-arguments" % c["f"], "guard build: misc_solvers.%s with a vector shorter than dims requires died (%s)" % (c["f"], r["crash"]),
